@@ -772,3 +772,103 @@ m('c07-revert-f8-residual', ['C07', 'C03'],
   (EE, """        SL_exact_eval = SL_exact_eval and isinstance(
             self.bdr_mesh.gamma_space, PiecewisePolygon)
 """, ""), rule='R-straight')
+
+# ---- C03 / C20 --------------------------------------------------------------
+m('c03-rhs-plus-m0', ['C03'],
+  (EX, "            rhs = -M0.linform_vector(elems=elems, use_mp=True)",
+   "            rhs = M0.linform_vector(elems=elems, use_mp=True)"),
+  rule='R-signs')
+m('c03-rhs-minus-g', ['C03'],
+  (EX, "            rhs += g_linform(elems)", "            rhs -= g_linform(elems)"),
+  rule='R-signs')
+m('c03-residual-m0-sign', ['C03'],
+  (EE, "                    result[i] += M0u0(t, x.reshape(2, 1))",
+   "                    result[i] -= M0u0(t, x.reshape(2, 1))"), rule='R-signs')
+m('c03-residual-g-sign', ['C03'],
+  (EE, "                    result[i] -= g(t, x.reshape(2, 1))",
+   "                    result[i] += g(t, x.reshape(2, 1))"), rule='R-signs')
+m('c03-residual-no-phi', ['C03'],
+  (EE, """                        VPhi += Phi[j] * SL.evaluate(elem_trial, t, x_hat,
+                                                     x.reshape(2, 1))""",
+   """                        VPhi += SL.evaluate(elem_trial, t, x_hat,
+                                            x.reshape(2, 1))"""),
+  rule='R-signs')
+m('c03-singular-quarter', ['C03'],
+  (PR, """        return (1 / 4) * (erf(
+            (1 - a) / (2 * np.sqrt(t))) + erf(a / (2 * np.sqrt(t)))) * (erf(""",
+   """        return (1 / 2) * (erf(
+            (1 - a) / (2 * np.sqrt(t))) + erf(a / (2 * np.sqrt(t)))) * (erf("""),
+  rule='K8')
+m('c03-lshape-erf', ['C03'],
+  (PR, """        return (1 / 4) * ((erf((1 - a) / (2 * np.sqrt(t))) + erf(
+            (1 + a) / (2 * np.sqrt(t)))) * (erf(""",
+   """        return (1 / 4) * ((erf((1 - a) / (2 * np.sqrt(t))) + erf(
+            (1 - a) / (2 * np.sqrt(t)))) * (erf("""), rule='K8')
+m('c03-smooth-exp', ['C03'],
+  (PR, "(2 * sqrtt)) - np.exp(2 * 1j * x * np.pi) * (erf(",
+   "(2 * sqrtt)) - np.exp(1j * x * np.pi) * (erf("), rule='K8')
+m('c03-mild-third', ['C03'],
+  (PR, "            1 / 3 * elem.h_x *", "            1 / 2 * elem.h_x *"),
+  rule='K8')
+m('c03-dirichlet-load', ['C03'],
+  (PR, "            [elem.h_t * elem.h_x for elem in elems])",
+   "            [elem.h_t for elem in elems])"), rule='K8')
+m('c03-problem-domain', ['C03'],
+  (PR, """        elif domain == 'LShape':
+            result.update(singular_lshape())""", """        elif domain == 'LShape':
+            result.update(singular_square())"""), rule='K8')
+m('c03-matrix-lists', ['C03'],
+  (EX, "        mat = SL.bilform_matrix(elems, elems, use_mp=True)",
+   "        mat = SL.bilform_matrix(elems, list(mesh.leaf_elements)[::-1], use_mp=True)"),
+  rule='R-index')
+
+m('c20-repeat-tile', ['C20'],
+  (HH, "        Phi_prolong = np.repeat(Phi, 4)", "        Phi_prolong = np.tile(Phi, 4)"),
+  rule='R-hier')
+m('c20-rhs-sign', ['C20', 'C03'],
+  (HH, "            rhs -= self.M0.linform_vector(elems=elems_fine, use_mp=self.use_mp)",
+   "            rhs += self.M0.linform_vector(elems=elems_fine, use_mp=self.use_mp)"),
+  rule='R-signs')
+m('c20-energy-norm', ['C20'],
+  (HH, "        return np.sqrt(diff.T @ mat_fine @ diff)", "        return np.sqrt(diff.T @ diff)"),
+  rule='R-hier')
+m('c20-test-trial-swapped', ['C20'],
+  (HI, """        mat = self.SL.bilform_matrix(elems_test=elems_fine,
+                                     elems_trial=elems_coarse,""",
+   """        mat = self.SL.bilform_matrix(elems_test=elems_coarse,
+                                     elems_trial=elems_fine,"""),
+  rule='R-index')
+m('c20-patterns-swapped', ['C20'],
+  (HI, "            for k, coefs in enumerate([[1, 1, -1, -1], [1, -1, 1, -1],",
+   "            for k, coefs in enumerate([[1, -1, 1, -1], [1, 1, -1, -1],"),
+  rule='R-hier')
+m('c20-half', ['C20'],
+  (HI, "            estims.append((estim_loc[0] + 0.5 * estim_loc[2],",
+   "            estims.append((estim_loc[0] + 1.0 * estim_loc[2],"),
+  rule='R-hier')
+m('c20-scaling-squared', ['C20'],
+  (HI, "                estim_loc[k] = abs(rhs_estim - V_estim)**2 / scaling_estim",
+   "                estim_loc[k] = abs(rhs_estim - V_estim)**2 / scaling_estim**2"),
+  rule='R-hier')
+m('c20-children-order', ['C20', 'C11'],
+  (HI, """                DummyElement(vertices=[v30, vi, v23, v3], gamma_space=gamma),
+                DummyElement(vertices=[vi, v12, v2, v23], gamma_space=gamma),""",
+   """                DummyElement(vertices=[vi, v12, v2, v23], gamma_space=gamma),
+                DummyElement(vertices=[v30, vi, v23, v3], gamma_space=gamma),"""),
+  rule='R-children')
+m('c20-children-consistent-twin', ['C20'],
+  (HI, """                DummyElement(vertices=[v01, v1, v12, vi], gamma_space=gamma),
+                DummyElement(vertices=[v30, vi, v23, v3], gamma_space=gamma),""",
+   """                DummyElement(vertices=[v01, v1, v12, vi], gamma_space=gamma),
+                DummyElement(vertices=[v30, vi, v23, v3], gamma_space=elem_coarse.gamma_space),"""),
+  expect='silent')
+m('c20-prolongate-single', ['C20'],
+  (M, """        while elem_coarse not in elem_coarse_2_idx:
+            assert elem_coarse.parent
+            elem_coarse = elem_coarse.parent""",
+   """        if elem_coarse not in elem_coarse_2_idx:
+            assert elem_coarse.parent
+            elem_coarse = elem_coarse.parent"""), rule='R-hier')
+m('c20-prolongate-j', ['C20'],
+  (M, "        vec_fine[j] = vec_coarse[i]", "        vec_fine[j] = vec_coarse[j]"),
+  rule='R-hier')
